@@ -363,6 +363,34 @@ theorem step_sim {b : Backend} (hb : b.strict = false) {st : Store α} {w : Worl
       obtain ⟨r, w', hg, heq, hh⟩ := getArray_sim b w hr
       simp only [hg]
       exact put_sim (h.of_heap_eq hh) i (⟨trivial, insertDim_congr heq⟩ : Rel st (.mem (insertDimArr r)) _) inplace
+  | squeeze i inplace =>
+    simp only [step, estep]
+    cases hs : w.heap[i]? with
+    | none => rw [h.lookup_none hs]; exact ⟨rfl, h⟩
+    | some s =>
+      obtain ⟨a, ha, hr⟩ := h.lookup hs
+      rw [ha]
+      simp only [hr.shape_eq]
+      by_cases hl : (!(a.shape.any (· == 1))) = true
+      · simp only [hl, if_true]; exact put_sim h i hr inplace
+      · simp only [hl, if_false]
+        obtain ⟨r, w', hg, heq, hh⟩ := getArray_sim b w hr
+        simp only [hg]
+        exact put_sim (h.of_heap_eq hh) i (⟨trivial, squeeze_congr heq⟩ : Rel st (.mem (squeezeArr r)) _) inplace
+  | flatten i inplace =>
+    simp only [step, estep]
+    cases hs : w.heap[i]? with
+    | none => rw [h.lookup_none hs]; exact ⟨rfl, h⟩
+    | some s =>
+      obtain ⟨a, ha, hr⟩ := h.lookup hs
+      rw [ha]
+      simp only [hr.shape_eq]
+      by_cases hl : a.shape.length ≤ 1
+      · simp only [hl, if_true]; exact put_sim h i hr inplace
+      · simp only [hl, if_false]
+        obtain ⟨r, w', hg, heq, hh⟩ := getArray_sim b w hr
+        simp only [hg]
+        exact put_sim (h.of_heap_eq hh) i (⟨trivial, flatten_congr heq⟩ : Rel st (.mem (flattenArr r)) _) inplace
 
 /-- Whole histories. -/
 theorem run_sim {b : Backend} (hb : b.strict = false) {st : Store α} (ops : List (Op α)) :
